@@ -106,6 +106,47 @@ def v1_case(t, hd, OFXTree, params):
     t.outcome("body-" + bodyname + "-" + charset)
 
 
+def reparse_after_edit(t, hd):
+    """a returned header object is the caller's: editing it (to re-export the file under another version, charset, UID)
+    must not change what the next parse of the same bytes - or of another file with equal fields - returns"""
+    import io as _io
+
+    for v in (1, 2):
+        for bodyname, charset in (("cp1252", "1252"), ("eacute", "ISO-8859-1"), ("utf8", "NONE")):
+            t.count("evaluations")
+            body = BODIES[bodyname]
+            if v == 1:
+                fields = H.v1_fields(102, "NONE", "USASCII", charset, "NONE", "NONE", "uid-1")
+                data = H.render_v1(fields).encode("ascii") + body.encode(H.CODECS[charset])
+            else:
+                fields = H.v2_fields(203, "NONE", "NONE", "uid-1")
+                data = (H.render_v2(fields) + BODIES["utf8"]).encode("utf_8")
+                body = BODIES["utf8"]
+            case = {"v": v, "params": ["reparse-after-edit", bodyname, charset]}
+            sig0 = f"C05|v{v}|reparse-after-editing-the-returned-header"
+            try:
+                h1, _ = hd.parse_header(_io.BytesIO(data))
+                for attr, val in (("version", 103 if v == 1 else 220), ("newfileuid", "EDITED"), ("oldfileuid", "EDITED"), ("security", "TYPE1"), ("charset", "NONE" if charset != "NONE" else "1252")):
+                    if hasattr(h1, attr):
+                        try:
+                            setattr(h1, attr, val)
+                        except Exception:
+                            pass
+                h2, msg = hd.parse_header(_io.BytesIO(data))
+            except Exception as e:
+                t.fail(f"{sig0}|raises-{type(e).__name__}", case, f"{type(e).__name__}: {e}")
+                continue
+            got = H.header_obj_fields(h2)
+            if got != fields:
+                t.fail(f"{sig0}|fields-differ", case, f"{got} expected {fields}")
+            elif msg.strip() != body:
+                t.fail(f"{sig0}|body-differs", case, f"{msg[:60]!r}")
+            elif h2 is h1:
+                t.fail(f"{sig0}|same-object-returned-twice", case, "")
+            else:
+                t.outcome("reparse-ok")
+
+
 def refused_files(hd):
     """files whose body cannot be decoded with the declared charset (refused on the pinned tree): fed before the valid
     ones - what a valid file decodes to must not depend on an earlier, broken one"""
@@ -267,6 +308,7 @@ def run(ctx):
     jobs2 += [j + ("DEBUG",) for j in jobs2[:: 7]] + [j + ("DEBUG",) for j in jobs2 if j[-1] in LONG]
     tally.merge(ctx.pmap(v2_work, jobs2))
     tree_checks(tally, hd, OFXTree)
+    reparse_after_edit(tally, hd)
     if not tally.fails:
         for o in ("v1-ok-one-line+glued", "v1-ok-cr-only+cr-gap", "v1-ok-line-per-field+lf-gap", "v2-ok-one-line", "v2-ok-lines", "tree-ok", "body-cp1252-1252", "body-c1-ISO-8859-1", "body-utf8-NONE"):
             if o not in tally.outcomes:
@@ -280,7 +322,7 @@ def run(ctx):
         "{blank line,none,LF,CRLF,CR,two blank lines} x COMPRESSION present/absent x every (charset, body) pair encodable (7 bodies: ascii, e-acute, text whose single-byte encoding is valid UTF-8, "
         "cp1252-only, C1 control, UTF-8 multi-byte, multi-line) with encoding/version/security rotating; all field-value combinations on the standard layout; "
         "separators deviating at <=2 of 8 boundaries from each uniform layout x gaps x 3 bodies; v2: 7 versions x quote x standalone x encoding attr x "
-        "breaks x leading blank line x 4 bodies; 5 long bodies (144-180 KB, 2/3/4-byte characters at every alignment) x 3 layouts x 4 UID lengths; every 7th file and every long one again with the library's loggers at DEBUG; each file is a distinct byte string (all but the library's own canonical layout non-trivial)",
+        "breaks x leading blank line x 4 bodies; 5 long bodies (144-180 KB, 2/3/4-byte characters at every alignment) x 3 layouts x 4 UID lengths; every 7th file and every long one again with the library's loggers at DEBUG; 6 files parsed, the returned header edited, and parsed again; each file is a distinct byte string (all but the library's own canonical layout non-trivial)",
         "v1_files": n1,
         "v2_files": len(jobs2),
         "exhaustive": True,
